@@ -23,8 +23,9 @@ type sOp struct {
 }
 
 type sCase struct {
-	Cfg sIndexCfg `json:"cfg"`
-	Ops []sOp     `json:"ops"`
+	Cfg      sIndexCfg `json:"cfg"`
+	Ops      []sOp     `json:"ops"`
+	VecBatch int       `json:"vec_batch,omitempty"` // > 0: every query is also answered by the columnar path with this batch size
 }
 
 const (
@@ -170,6 +171,8 @@ func (c *sCrit) tags(dst map[string]bool) {
 type sStats struct {
 	flushes, merges, queries int
 	reopens                  int
+	vecServed, vecDeclined   int
+	vecTieDiffers            bool
 	indexedCrit              bool
 	skippingCrit             bool
 	selective                bool
@@ -369,6 +372,31 @@ func runStreamHistory(x *verifkit.Ctx, c sCase) (sStats, error) {
 						}
 						return st, fmt.Errorf("%s: order by %s desc=%v offset %d limit %d: position %d has key %d, the sorted matching set has %d there (returned keys: %s)",
 							what, q.Order, q.Desc, q.Offset, q.Limit, k, got, want, strings.Join(gotKeys, ","))
+					}
+				}
+			}
+			// (4) C15: the columnar path returns what the row path returns
+			if c.VecBatch > 0 {
+				vres, eligible, verr := idx.queryVec(q, c.VecBatch)
+				switch {
+				case verr != nil:
+					return st, fmt.Errorf("%s: columnar path failed where the row path succeeds: %v", what, verr)
+				case !eligible:
+					st.vecDeclined++
+				default:
+					st.vecServed++
+					if len(vres) != len(res) {
+						return st, fmt.Errorf("%s: row path returns %d elements, columnar path %d (query %+v)", what, len(res), len(vres), q)
+					}
+					for k := range res {
+						if res[k].id != vres[k].id && keyOf(res[k], q.Order) == keyOf(vres[k], q.Order) {
+							st.vecTieDiffers = true // equal sort keys: the order among them is not determined
+							continue
+						}
+						if res[k].id != vres[k].id || res[k].tags != vres[k].tags || res[k].ts != vres[k].ts {
+							return st, fmt.Errorf("%s: position %d: row path returns %s [%s @%d], columnar path %s [%s @%d] (query %+v)",
+								what, k, res[k].id, res[k].tags, res[k].ts, vres[k].id, vres[k].tags, vres[k].ts, q)
+						}
 					}
 				}
 			}
@@ -752,3 +780,35 @@ func streamL1Spec(pid string) verifkit.Spec[sCase] {
 func TestVerifStreamC01(t *testing.T) { verifkit.Run(t, streamL1Spec("C01")) }
 
 func TestVerifStreamC03(t *testing.T) { verifkit.Run(t, streamL1Spec("C03")) }
+
+func TestVerifStreamC15(t *testing.T) {
+	verifkit.Run(t, verifkit.Spec[sCase]{
+		Property: "C15", Unit: "stream_vec_parity",
+		Rule: streamRule + "; additionally every query is answered by the columnar path as banyand/query/processor.go dispatches it on a standalone node " +
+			"(VecExecutable -> ExecuteVectorized -> BuildElementsFromBatches -> tag filter -> offset/limit slice) with batch size in {1,2,7,1024}; oracle: the " +
+			"same elements in the same order as the row path (positions whose sort keys are equal may hold different elements); non-trivial = the columnar " +
+			"path served a query returning >= 2 elements after a flush",
+		Known: streamKnown,
+		Gen: func(t *rapid.T, ks *verifkit.KnownSet) sCase {
+			c := genStreamCase(t, nil)
+			c.VecBatch = rapid.SampledFrom([]int{1, 2, 7, 1024}).Draw(t, "vecbatch")
+			avoidKnown(&c, ks)
+			return c
+		},
+		Check: func(x *verifkit.Ctx, c sCase) error {
+			st, err := runStreamHistory(x, c)
+			if err != nil {
+				return err
+			}
+			sLabel(x, st)
+			x.LabelIf(st.vecServed > 0, "columnar path served a query")
+			x.LabelIf(st.vecDeclined > 0, "columnar path declined a query")
+			x.LabelIf(st.vecTieDiffers, "tie resolved differently (accepted)")
+			if st.vecServed > 0 && st.afterFlush {
+				x.NonTrivial()
+			}
+			return nil
+		},
+		MinLabelFrac: map[string]float64{"columnar path served a query": 0.5},
+	})
+}
